@@ -83,3 +83,35 @@ func init() {
 		return s, nil
 	}}
 }
+
+func init() {
+	builtins["reverse"] = &Func{Name: "reverse", Arity: 1, Call: func(args []interface{}) (interface{}, error) {
+		if len(args) != 1 {
+			return nil, E("argcount")
+		}
+		if IsUndef(args[0]) {
+			return U, nil
+		}
+		l := asList(args[0])
+		out := make([]interface{}, len(l))
+		for i, v := range l {
+			out[len(l)-1-i] = v
+		}
+		return out, nil
+	}}
+	builtins["append"] = &Func{Name: "append", Arity: 2, Call: func(args []interface{}) (interface{}, error) {
+		if len(args) != 2 {
+			return nil, E("argcount")
+		}
+		a, b := args[0], args[1]
+		switch {
+		case IsUndef(a) && IsUndef(b):
+			return U, nil
+		case IsUndef(b):
+			return a, nil
+		case IsUndef(a):
+			return b, nil
+		}
+		return append(append([]interface{}{}, asList(a)...), asList(b)...), nil
+	}}
+}
